@@ -242,6 +242,43 @@ def event_wiring(ck, rb):
         ck.struct("ring.events.%s" % name.split("(")[0], got == want, "%s: record operations %s, contract %s" % (name, got, want), {"attr": name})
 
 
+def rescan_wiring(ck, rb):
+    """DigitalRFRingbuffer._verify_ringbuffer_files (modular): the re-scan after a restart first drops the records of files that are gone,
+    then adds the files it missed, then re-examines the rest - a record of a vanished file must not count against the limits while the
+    missed files are added (a file is deleted only when a limit is actually exceeded)."""
+    import types
+    RBc = rb.DigitalRFRingbuffer
+    ck.add_function(pyload.source_info(rb, "DigitalRFRingbuffer._verify_ringbuffer_files"))
+    real_list = rb.list_drf
+    trace = []
+    ondisk = ["/w/ch/s/rf@1.000.h5", "/w/ch/s/rf@2.000.h5", "/w/ch/s/rf@4.000.h5"]
+    inbuffer = {"/w/ch/s/rf@1.000.h5", "/w/ch/s/rf@2.000.h5", "/w/ch/s/rf@3.000.h5"}
+    calls = []
+
+    def ilsdrf(path, **kw):
+        calls.append((path, dict(kw)))
+        return iter(ondisk)
+    rb.list_drf = types.SimpleNamespace(ilsdrf=ilsdrf)
+    eh = types.SimpleNamespace(remove_files=lambda ps: trace.append(("remove", sorted(ps))), add_files=lambda ps, sort=True: trace.append(("add", sorted(ps), sort)),
+                               modify_files=lambda ps, sort=True: trace.append(("modify", sorted(ps), sort)))
+    self_ = types.SimpleNamespace(path="/w", starttime="S", endtime="E", include_drf=True, include_dmd=False, event_handler=eh)
+    try:
+        try:
+            RBc._verify_ringbuffer_files(self_, set(inbuffer))
+            got = list(trace)
+        except Exception as e:
+            got = "raised %r" % (e,)
+    finally:
+        rb.list_drf = real_list
+    want = [("remove", ["/w/ch/s/rf@3.000.h5"]), ("add", sorted(ondisk), True), ("modify", ["/w/ch/s/rf@1.000.h5", "/w/ch/s/rf@2.000.h5"], True)]
+    # adding only the missed files instead of all files on disk is equally fine (re-adding a tracked file is a no-op)
+    alt = [want[0], ("add", ["/w/ch/s/rf@4.000.h5"], True), want[2]]
+    ck.struct("ring.rescan.remove_then_add_then_modify", got in (want, alt), "re-scan performed %s, contract %s" % (got, want), {"attr": "rescan"})
+    okl = len(calls) == 1 and calls[0][0] == "/w" and calls[0][1].get("starttime") == "S" and calls[0][1].get("endtime") == "E" and calls[0][1].get("include_drf") is True \
+        and calls[0][1].get("include_dmd") is False and calls[0][1].get("include_drf_properties") is False and calls[0][1].get("include_dmd_properties") is False
+    ck.struct("ring.rescan.lists_tracked_kinds_only", okl, "re-scan listing %s" % (calls,), {"attr": "rescan"})
+
+
 def run(tier, seed, replay=None):
     ck = harness.Check("C16", tier, seed, level="other")
     rb = pyload.module("ringbuffer")
@@ -302,6 +339,7 @@ def run(tier, seed, replay=None):
                 ck.add(pysym.obligations_of(outs, "ringbuffer." + op))
     delete_sites(ck, rb)
     event_wiring(ck, rb)
+    rescan_wiring(ck, rb)
     for nm in ("DigitalRFRingbufferHandlerBase._add_to_queue", "DigitalRFRingbufferHandlerBase._remove_from_queue",
                "DigitalRFRingbufferHandlerBase._expire_oldest_from_group", "DigitalRFRingbufferHandlerBase._add_record",
                "DigitalRFRingbufferHandlerBase._modify_record", "DigitalRFRingbufferHandlerBase._remove_record",
